@@ -29,20 +29,22 @@ theorem C02_take_is_head (w w' : World) (p : Proc) (b : BId) (e : EId)
   | cons x q =>
     simp [hq'] at hq
     subst hq
-    cases p <;> simp [apply, hq']
+    cases p <;> simp [apply, apply0, hq']
 
 /-- C09 (a): a dispatch from inside a handler of event `ce` gives a parentless event `e ≠ ce` the parent `ce`. -/
 theorem C09_parent_from_handler (w : World) (i : IId) (b : BId) (e : EId) (res : DRes)
     (hp : (w.ev e).parent = none) (hne : (w.inst i).ev ≠ e) :
     ((apply w (.dispatch (.inst i) b e res)).ev e).parent = some (w.inst i).ev := by
-  show ((applyDispatch w _ b e res).ev e).parent = _
+  show ((wake (applyDispatch w _ b e res)).ev e).parent = _
+  rw [wake_ev]
   rw [applyDispatch_parent, dParent_parent]
   simp [ctxOf, hp, hne]
 
 /-- C09 (b): a dispatch from ordinary (non-handler) code never gives an event a parent. -/
 theorem C09_no_parent_from_ordinary_code (w : World) (b : BId) (e : EId) (res : DRes) (x : EId) :
     ((apply w (.dispatch .ext b e res)).ev x).parent = (w.ev x).parent := by
-  show ((applyDispatch w _ b e res).ev x).parent = _
+  show ((wake (applyDispatch w _ b e res)).ev x).parent = _
+  rw [wake_ev]
   rw [applyDispatch_parent, dParent_parent]
   simp [ctxOf]
 
@@ -51,7 +53,8 @@ theorem C09_no_parent_from_ordinary_code (w : World) (b : BId) (e : EId) (res : 
 theorem C09_parent_never_overwritten (w : World) (p : Proc) (b : BId) (e : EId) (res : DRes) (x y : EId)
     (hp : (w.ev x).parent = some y) :
     ((apply w (.dispatch p b e res)).ev x).parent = some y := by
-  show ((applyDispatch w _ b e res).ev x).parent = _
+  show ((wake (applyDispatch w _ b e res)).ev x).parent = _
+  rw [wake_ev]
   rw [applyDispatch_parent, dParent_parent]
   by_cases hx : x = e
   · subst hx; simp [hp]
@@ -61,7 +64,8 @@ theorem C09_parent_never_overwritten (w : World) (p : Proc) (b : BId) (e : EId) 
 theorem C09_never_own_parent (w : World) (p : Proc) (b : BId) (e : EId) (res : DRes) (x : EId)
     (hp : (w.ev x).parent ≠ some x) :
     ((apply w (.dispatch p b e res)).ev x).parent ≠ some x := by
-  show ((applyDispatch w _ b e res).ev x).parent ≠ _
+  show ((wake (applyDispatch w _ b e res)).ev x).parent ≠ _
+  rw [wake_ev]
   rw [applyDispatch_parent, dParent_parent]
   split
   · rename_i h
